@@ -513,8 +513,9 @@ class DecoderModel:
                 if chain is not None:
                     # what reaches the decoder after the quote normalisation of this style
                     t = "\\" + e
-                    for old_, new_ in chain:
-                        t = t.replace(old_, new_)
+                    from ._strmodel import apply_normalisation
+
+                    t = apply_normalisation(chain, t)
                     ok = self._decodes(t)
                 else:
                     src = '"' if e == quote else e
